@@ -60,7 +60,7 @@ func num(s string) json.Number { return json.Number(s) }
 // ---- alphabets
 
 // member names: the default first, then names that need care somewhere.
-var nameAlphabet = []string{"a", "a b", "a/b", "a~b", "a%b", `a"b`, `a\b`, "a\nb", "\u0000x", "é", "😀", "<&>", " ", `^a\d+$`, "[0-9]{3}", "200", "", "A", "$ref2", "x", "aB"}
+var nameAlphabet = []string{"a", "a b", "a/b", "a~b", "a%b", `a"b`, `a\b`, "a\nb", "\u0000x", "é", "😀", "<&>", " ", `^a\d+$`, "[0-9]{3}", "200", "", "A", "$ref2", "x", "aB", "nullable"}
 
 var pathAlphabet = []string{"/a", "/a b", "/{id}", `/a"b`, "/é", "/a~b", "/a%2Fb", "/"}
 
@@ -357,9 +357,9 @@ func newGen() *gen {
 			{"examples", mapOfVals(freeAlts(), []string{"application/json", `a"b`, "é"})},
 		}, extMembers())
 	})
-	add("responses", []string{`{"200":{"description":"d"}}`, `{"default":{"description":"d"}}`}, func(skel map[string]interface{}) []member {
+	add("responses", []string{`{"200":{"description":"d"}}`, `{"default":{"description":"d"}}`, `{"600":{"description":"d"}}`}, func(skel map[string]interface{}) []member {
 		ms := extMembers()
-		for _, code := range []string{"default", "200", "404", "599", "100"} {
+		for _, code := range []string{"default", "200", "404", "599", "100", "600"} {
 			if _, has := skel[code]; !has {
 				ms = append(ms, member{code, sub("response", true)})
 			}
